@@ -353,7 +353,10 @@ struct BufSys {
             case CTOR_PTR: {
                 Str v = value(o.n, 0);
                 expect = v;
-                LIB(new (bi) B(v.data(), v.size()));
+                // the source is a slice of a larger array: the element behind it is not zero (the constructor copies size elements and
+                // writes its own terminator)
+                Str larger = v + Str(3, (T)0x5A);
+                LIB(new (bi) B(larger.data(), v.size()));
                 slots[o.i].alive = true;
                 okind = "ptr-ctor";
                 break;
